@@ -70,6 +70,12 @@ structure Image where
   clipSize : Nat := 0              -- clip_region.data->size (0: NULL or the static empty data)
   clipRects : Nat := 0             -- number of rectangles of clip_region
   stops : Cell := {}               -- gradient.stops (the block starts one element earlier)
+  indexed : Option Nat := none     -- bits.indexed (a client pointer; not owned)
+  /-- `bits.indexed` and `gradient.stops` are the same word of the union: after
+      `pixman_image_set_indexed` on a gradient the stops field holds the client's pointer
+      (`some (some p)`) or NULL (`some none`) instead of the library's block -/
+  stopsForeign : Option (Option Nat) := none
+  badFrees : Nat := 0              -- `free ()` calls on pointers the library never allocated
   destroyFunc : Bool := false
   destroyData : Nat := 0
 
@@ -139,34 +145,60 @@ def createGradient (h : Heap) (k : Kind) (nStops : Int) : Heap × Option Nat :=
 def ref (h : Heap) (i : Nat) : Heap :=
   (touch h i).modify i fun im => { im with refCount := im.refCount + 1 }
 
+/-! `_pixman_image_fini`, statement by statement, as record updates of the image itself -/
+
+/-- `common->ref_count--` -/
+def Image.dec (im : Image) : Image := { im with refCount := im.refCount - 1 }
+
+/-- `pixman_region32_fini (&clip_region); free (transform); free (filter_params)` -/
+def Image.finiCommon (im : Image) : Image :=
+  { im with clipData := im.clipData.free, transform := im.transform.free, filterParams := im.filterParams.free }
+
+def Image.isGradient (im : Image) : Bool :=
+  decide (im.kind = .linear ∨ im.kind = .radial ∨ im.kind = .conical)
+
+/-- gradients: `free (stops - 1)` -/
+def Image.stopsAfterFini (im : Image) : Cell :=
+  match im.stopsForeign with
+  | none => im.stops.free          -- the field still holds the library's block
+  | some _ => im.stops             -- NULL (nothing freed) or the client's pointer: the block is lost
+
+def Image.badFreesAfterFini (im : Image) : Nat :=
+  match im.stopsForeign with
+  | some (some _) => im.badFrees + 1     -- free (indexed - 1)
+  | _ => im.badFrees
+
+def Image.finiStops (im : Image) : Image :=
+  if im.isGradient then { im with stops := im.stopsAfterFini, badFrees := im.badFreesAfterFini } else im
+
+/-- bits: `free (free_me)` -/
+def Image.finiBits (im : Image) : Image :=
+  if im.kind = .bits then { im with freeMe := im.freeMe.free } else im
+
+/-- `free (image)` -/
+def Image.freeSelf (im : Image) : Image := { im with freed := im.freed + 1 }
+
+/-- `if (destroy_func) destroy_func (image, destroy_data)` -/
+def fire (h : Heap) (i : Nat) : Heap :=
+  if (h.img i).destroyFunc then { h with fired := h.fired ++ [(i, (h.img i).destroyData)] } else h
+
 /-- `pixman_image_unref` = `_pixman_image_fini` + `free (image)`.  The recursion of
     `_pixman_image_fini` into the alpha map is bounded by a budget (`stuck` counts exhaustion). -/
 def unrefF : Nat → Heap → Nat → Heap × Bool
   | 0, h, _ => ({ h with stuck := h.stuck + 1 }, false)
   | fuel + 1, h, i =>
     let h := touch h i
-    -- common->ref_count--
-    let h := h.modify i fun im => { im with refCount := im.refCount - 1 }
-    let im := h.img i
-    if im.refCount = 0 then
-      -- destroy_func (image, destroy_data)
-      let h := if im.destroyFunc then { h with fired := h.fired ++ [(i, im.destroyData)] } else h
-      -- pixman_region32_fini (&clip_region); free (transform); free (filter_params)
-      let h := h.modify i fun im => { im with clipData := im.clipData.free }
-      let h := h.modify i fun im => { im with transform := im.transform.free }
-      let h := h.modify i fun im => { im with filterParams := im.filterParams.free }
+    let h := h.modify i Image.dec
+    if (h.img i).refCount = 0 then
+      let h := fire h i
+      let h := h.modify i Image.finiCommon
       -- if (alpha_map) pixman_image_unref (alpha_map)
-      let h := match im.alphaMap with
+      let h := match (h.img i).alphaMap with
         | some m => (unrefF fuel h m).1
         | none => h
-      -- gradients: free (stops - 1)
-      let h := if im.kind = .linear ∨ im.kind = .radial ∨ im.kind = .conical then
-                 h.modify i fun im => { im with stops := im.stops.free }
-               else h
-      -- bits: free (free_me)
-      let h := if im.kind = .bits then h.modify i fun im => { im with freeMe := im.freeMe.free } else h
-      -- free (image)
-      (h.modify i fun im => { im with freed := im.freed + 1 }, true)
+      let h := h.modify i Image.finiStops
+      let h := h.modify i Image.finiBits
+      (h.modify i Image.freeSelf, true)
     else (h, false)
 
 /-- budget used by the operations: an image, its alpha map, and one spare level -/
@@ -177,6 +209,16 @@ def unref (h : Heap) (i : Nat) : Heap × Bool := unrefF fuel0 h i
 /-- `pixman_image_set_destroy_function` -/
 def setDestroy (h : Heap) (i : Nat) (func : Bool) (data : Nat) : Heap :=
   (touch h i).modify i fun im => { im with destroyFunc := func, destroyData := data }
+
+/-- `pixman_image_set_indexed (image, indexed)`: no check of the image type.  On a gradient the
+    store goes to `gradient.stops` (same offset): the stops array is lost and `_pixman_image_fini`
+    later frees `indexed - 1`.  On a solid fill it overwrites `color_32` (nothing owned). -/
+def setIndexed (h : Heap) (i : Nat) (p : Option Nat) : Heap :=
+  (touch h i).modify i fun im =>
+    if im.isGradient then
+      -- if (bits->indexed == indexed) return;   (a library block is never the client's pointer)
+      if im.stopsForeign = some p then im else { im with stopsForeign := some p }
+    else if im.indexed = p then im else { im with indexed := p }
 
 /-- `pixman_image_set_transform`; `t = none` is NULL, `some 0` the identity matrix, `some k` another
     matrix (the client's pointer is never the image's own copy) -/
@@ -256,6 +298,10 @@ def setClip16 (h : Heap) (i : Nat) (n : Option Nat) : Heap × Bool :=
         { im with clipData := im.clipData.free.alloc, clipSize := n, clipRects := n, haveClip := true }
     (h, true)
 
+def touchOpt (h : Heap) : Option Nat → Heap
+  | some a => touch h a
+  | none => h
+
 def mapNotBits (h : Heap) : Option Nat → Bool
   | some a => decide ((h.img a).kind ≠ .bits)
   | none => false
@@ -264,11 +310,29 @@ def mapHasMap (h : Heap) : Option Nat → Bool
   | some a => (h.img a).alphaMap.isSome
   | none => false
 
+/-- `if (common->alpha_map) { common->alpha_map->common.alpha_count--;
+    pixman_image_unref (common->alpha_map); }` — the field itself keeps its (now stale) value -/
+def detachOld (h : Heap) (i : Nat) : Heap :=
+  match (h.img i).alphaMap with
+  | some old =>
+    let h := (touch h old).modify old fun im => { im with alphaCount := im.alphaCount - 1 }
+    (unref h old).1
+  | none => h
+
+/-- `if (alpha_map) { common->alpha_map = pixman_image_ref (alpha_map); alpha_map->alpha_count++; }
+    else common->alpha_map = NULL;` -/
+def attachNew (h : Heap) (i : Nat) : Option Nat → Heap
+  | some a =>
+    let h := ref h a
+    let h := h.modify i fun im => { im with alphaMap := some a }
+    h.modify a fun im => { im with alphaCount := im.alphaCount + 1 }
+  | none => h.modify i fun im => { im with alphaMap := none }
+
 /-- `pixman_image_set_alpha_map (image, alpha_map, x, y)` -/
 def setAlphaMap (h : Heap) (i : Nat) (m : Option Nat) (x y : Int) : Heap :=
   let h := touch h i
   -- return_if_fail (!alpha_map || alpha_map->type == BITS)
-  let h := match m with | some a => touch h a | none => h
+  let h := touchOpt h m
   if mapNotBits h m then h
   -- if (alpha_map == image) return
   else if m = some i then h
@@ -277,22 +341,8 @@ def setAlphaMap (h : Heap) (i : Nat) (m : Option Nat) (x y : Int) : Heap :=
   -- if (alpha_map && alpha_map->common.alpha_map) return
   else if mapHasMap h m then h
   else
-    let h :=
-      if (h.img i).alphaMap ≠ m then
-        -- if (common->alpha_map) { alpha_map->alpha_count--; pixman_image_unref (alpha_map); }
-        let h := match (h.img i).alphaMap with
-          | some old =>
-            let h := (touch h old).modify old fun im => { im with alphaCount := im.alphaCount - 1 }
-            (unref h old).1
-          | none => h
-        match m with
-        | some a =>
-          -- common->alpha_map = pixman_image_ref (alpha_map); alpha_map->alpha_count++
-          let h := ref h a
-          let h := h.modify i fun im => { im with alphaMap := some a }
-          h.modify a fun im => { im with alphaCount := im.alphaCount + 1 }
-        | none => h.modify i fun im => { im with alphaMap := none }
-      else h
+    -- if (common->alpha_map != alpha_map) { ... }
+    let h := if (h.img i).alphaMap ≠ m then attachNew (detachOld h i) i m else h
     h.modify i fun im => { im with alphaX := x, alphaY := y }
 
 /-- `pixman_glyph_cache_create` -/
@@ -334,7 +384,7 @@ def cacheInsert (h : Heap) (key i : Nat) : Heap × Bool :=
         let (h, g) := createBits h (h.img i).width (h.img i).height true 0
         -- pixman_image_composite32 (SRC, image, NULL, glyph->image, ..)
         let h := touch h i
-        let h := match (h.img i).alphaMap with | some a => touch h a | none => h
+        let h := touchOpt h (h.img i).alphaMap
         ({ h with cache := some { c with entries := ⟨key, blk, g⟩ :: c.entries } }, true)
 
 def findGlyph (es : List Glyph) (key : Nat) : Option Glyph := es.find? fun g => g.key = key
@@ -350,10 +400,11 @@ def cacheRemove (h : Heap) (key : Nat) : Heap :=
       let h := { h with cache := some { c with entries := c.entries.erase g } }
       freeGlyph h g
 
-/-- `clear_table` -/
-def clearTable (h : Heap) : List Glyph → Heap
+/-- `clear_table`: `free_glyph (glyph); cache->glyphs[i] = NULL` for every slot.  (Here the slot is
+    emptied first; `free_glyph` does not look at the table, so the order is not observable.) -/
+def clearTable (h : Heap) (c : Cache) : List Glyph → Heap
   | [] => h
-  | g :: gs => clearTable (freeGlyph h g) gs
+  | g :: gs => clearTable (freeGlyph { h with cache := some { c with entries := gs } } g) c gs
 
 /-- `pixman_glyph_cache_destroy`: refused (return_if_fail) while frozen -/
 def cacheDestroy (h : Heap) : Heap :=
@@ -362,7 +413,7 @@ def cacheDestroy (h : Heap) : Heap :=
   | some c =>
     if c.freeze ≠ 0 then h
     else
-      let h := clearTable h c.entries
+      let h := clearTable h c c.entries
       { h with cache := none, cachesFreed := h.cachesFreed + 1 }
 
 /-! ### Histories -/
@@ -379,6 +430,7 @@ inductive Op where
   | setClip32 (i : Nat) (n : Option Nat)
   | setClip16 (i : Nat) (n : Option Nat)
   | setDestroy (i : Nat) (func : Bool) (data : Nat)
+  | setIndexed (i : Nat) (p : Option Nat)
   | cacheCreate | cacheDestroy | cacheFreeze | cacheThaw
   | cacheInsert (key i : Nat)
   | cacheRemove (key : Nat)
@@ -400,7 +452,8 @@ def Heap.holds (h : Heap) (i : Nat) : Bool := decide (0 < h.ext i)
     well-formed (the library reads `params[0..3]` unconditionally). -/
 def Op.ok (h : Heap) : Op → Bool
   | .createBits .. | .createSolid | .createGradient .. => true
-  | .ref i | .unref i | .setTransform i _ | .setClip32 i _ | .setClip16 i _ | .setDestroy i _ _ => h.holds i
+  | .ref i | .unref i | .setTransform i _ | .setClip32 i _ | .setClip16 i _ | .setDestroy i _ _
+  | .setIndexed i _ => h.holds i
   | .setFilter i f p =>
     h.holds i && (f != 6 || (match p with | some l => decide (4 ≤ l.length) | none => false))
   | .setAlphaMap i m _ _ => h.holds i && (match m with | some a => h.holds a | none => true)
@@ -431,6 +484,7 @@ def apply (h : Heap) : Op → Heap × Res
   | .setClip32 i n => let (h, b) := setClip32 h i n; (h, .bool b)
   | .setClip16 i n => let (h, b) := setClip16 h i n; (h, .bool b)
   | .setDestroy i f d => (setDestroy h i f d, .unit)
+  | .setIndexed i p => (setIndexed h i p, .unit)
   | .cacheCreate => (cacheCreate h, .unit)
   | .cacheDestroy => (cacheDestroy h, .unit)
   | .cacheFreeze => (cacheFreeze h, .unit)
